@@ -50,6 +50,10 @@ pub trait Check: Sync {
 static SUB_PTR: AtomicPtr<u8> = AtomicPtr::new(std::ptr::null_mut());
 const SUB_LEN: usize = 512;
 
+#[cfg(miri)]
+fn sub_open(_path: &str) {}
+
+#[cfg(not(miri))]
 fn sub_open(path: &str) {
     use std::os::unix::io::AsRawFd;
     let f = match std::fs::OpenOptions::new()
@@ -134,7 +138,11 @@ pub fn run_worker_loop(check: &dyn Check, ctx: &Ctx, wa: &WorkerArgs) {
         sub_open(&p);
     }
     let mut io = WorkerIo::new();
-    let n = check.ncases(ctx);
+    let mut n = check.ncases(ctx);
+    // VERIF_MAX_CASES caps the workload (slow interpreters: Miri, valgrind)
+    if let Some(m) = std::env::var("VERIF_MAX_CASES").ok().and_then(|s| s.parse::<u64>().ok()) {
+        n = n.min(m);
+    }
     let mut frag = Frag::new();
     let mut since = 0u64;
     let mut idx = wa.shard as u64;
